@@ -348,6 +348,10 @@ def v3_read_frame_eof(ctx):
             check_edge_returns(r, b, f, ebb, e.dst, "EOF ∧ buffer empty", is_ok_none, "Ok(None)")
         elif labs == [False]:
             check_edge_returns(r, b, f, ebb, e.dst, "EOF ∧ bytes buffered (inside a frame)", lambda c, o: c == "err", "Err")
+    # Ok(None) ("the peer is done") is said nowhere else: a failed read (reset) is not a clean end
+    et = {(e.src, e.dst) for e in b.succ[ebb] if einfo["arms"].get(e.dst) == [True]}
+    stray = [rb for c, d, rb in ret_classes(b, 0, lambda e: e.kind in ("unwind", "ydrop") or (e.src, e.dst) in et) if is_ok_none(c, ret_origin(b, d))]
+    r.add(f, "Ok(None) only for read == 0 with an empty buffer", bool(et) and not stray, where(b, ebb), "" if not stray else "a clean end of stream is reported on another path (e.g. for a read error): a stream cut inside a frame looks like a normal close")
     # each iteration looks at the buffer before reading more: the read is reachable only after parse_frame said "nothing yet"
     pfc = calls_in([b], "net::connection::Connection::parse_frame")
     rbs = [bb for _, bb, t in calls_in([b], "tokio::io::AsyncReadExt::read_buf", "tokio::io::AsyncReadExt::read")]
